@@ -167,7 +167,15 @@ func (r *gatewayController) buildCanaryHeaderHttpRoutes(rules []gatewayv1beta1.H
 	for i := range rules {
 		rule := rules[i]
 		if _, canaryRef := getServiceBackendRef(rule, r.conf.CanaryService); canaryRef != nil {
-			continue
+			// left by a previous step: either a generated canary rule (dropped and rebuilt below),
+			// or a user rule that a weight-based step split between stable and canary (restored)
+			filterOutServiceBackendRef(&rule, r.conf.CanaryService)
+			_, stableRef := getServiceBackendRef(rule, r.conf.StableService)
+			if stableRef == nil {
+				continue
+			}
+			stableRef.Weight = utilpointer.Int32(1)
+			setServiceBackendRef(&rule, *stableRef)
 		}
 		desired = append(desired, rule)
 		if _, stableRef := getServiceBackendRef(rule, r.conf.StableService); stableRef == nil {
